@@ -256,15 +256,19 @@ def c16(run, replay=None):
                           dict(key=key, list=[a, b], tree=mt))
     # regular expressions that are also valid JSON (a digit class like [12]): python's re decides these few
     import re as _re
-    jt = ('d', 'r', [('f', 'log1', 1), ('f', 'log12', 1), ('f', 'log2', 1), ('f', 'log3', 1), ('f', 'plain', 1), ('f', 'x21', 1), ('d', 'sub', [('f', 'a2', 1), ('f', 'b7', 1)])])
+    # ... and regular expressions with a comma (a counted repetition, a literal comma), file names with commas
+    jt = ('d', 'r', [('f', 'log1', 1), ('f', 'log12', 1), ('f', 'log2', 1), ('f', 'log3', 1), ('f', 'plain', 1), ('f', 'x21', 1), ('d', 'sub', [('f', 'a2', 1), ('f', 'b7', 1)]),
+                     ('f', 'a', 1), ('f', 'aa', 1), ('f', 'aaaa', 1), ('f', 'a,b', 1), ('f', 'x,y.log', 1), ('f', 'x.log', 1)])
     jw = world_nodes(jt)
-    jnames = ["r/log1", "r/log12", "r/log2", "r/log3", "r/plain", "r/x21", "r/sub/a2", "r/sub/b7"]
+    jnames = ["r/log1", "r/log12", "r/log2", "r/log3", "r/plain", "r/x21", "r/sub/a2", "r/sub/b7", "r/a", "r/aa", "r/aaaa", "r/a,b", "r/x,y.log", "r/x.log"]
     jcases = []
-    for pat in ("[12]", "[5]", "[1,2]", "[3]", "[0-9]", "12", "[1][2]", "true", "null", "\\d"):
+    for pat in ("[12]", "[5]", "[1,2]", "[3]", "[0-9]", "12", "[1][2]", "true", "null", "\\d", "^a{1,2}$", "^a,b$", "^x,y", "a{2,}", ",", "^(a|x),", "^a{2}$"):
         for key in ("patterns", "excludes"):
-            jcases.append((pat, key))
-    jouts = C.run_harness("find", [dict(world=jw, params="paths: ROOT/r\nrecurse: true\nfile_type: file\n%s: %s\n" % (key, json.dumps([pat])), lookup=True) for pat, key in jcases], prepare=prep)
-    for (pat, key), o in zip(jcases, jouts):
+            jcases.append((pat, key, True))
+            if not pat.startswith("["):
+                jcases.append((pat, key, False))       # the regex given as a plain string, not as a one-element list
+    jouts = C.run_harness("find", [dict(world=jw, params="paths: ROOT/r\nrecurse: true\nfile_type: file\n%s: %s\n" % (key, json.dumps([pat] if aslist else pat)), lookup=True) for pat, key, aslist in jcases], prepare=prep)
+    for (pat, key, aslist), o in zip(jcases, jouts):
         got = o.get("module", {}).get("ok")
         hit = sorted(n for n in jnames if _re.search(pat, n.rsplit("/", 1)[1]))
         want = hit if key == "patterns" else sorted(set(jnames) - set(hit))
